@@ -102,11 +102,14 @@ class Netlist(object):
             nl.wires[w['n']] = AWire(w['n'], w['k'], w['w'], w.get('v'), w.get('rv'))
         for i, m in enumerate(script['mems']):
             rom = rom_func(m['rom'], m['bw']) if m.get('rom') else None
-            nl.mems[i] = AMem(i, m['bw'], m['aw'], rom, m.get('name', ''), m.get('async', False))
+            nl.mems[str(i)] = AMem(str(i), m['bw'], m['aw'], rom, m.get('name', ''),
+                                   m.get('async', False))
         for n in script['nets']:
             p = n.get('p')
             if n['op'] == 's':
                 p = tuple(p)
+            elif n['op'] in 'm@':
+                p = str(p)
             nl.nets.append(ANet(n['op'], p, n['a'], n['d']))
         return nl
 
